@@ -1,2 +1,768 @@
 //! World extension: glv flows (instruction builders over the real program).
+//!
+//! Transliterated from `crates/sdk/src/client/ops/glv.rs`, `ops/exchange/glv_{deposit,withdrawal,shift}.rs`
+//! and the `#[derive(Accounts)]` structs in `programs/store/src/instructions/glv/*.rs`.
+//! The GLV token is a Token-2022 mint (created by the real `initialize_glv` through the real
+//! Token-2022 processor); market tokens are legacy SPL tokens.
+use super::exchange::{load, EXECUTION_FEE};
 use super::*;
+use anchor_spl::{associated_token, token_2022::spl_token_2022};
+use gmsol_store::{
+    ops::{
+        glv::{CreateGlvDepositParams, CreateGlvWithdrawalParams},
+        shift::CreateShiftParams,
+    },
+    states::{
+        common::action::{Action, ActionState},
+        glv::{GlvMarketFlag, UpdateGlvParams},
+        Glv, GlvDeposit, GlvShift, GlvWithdrawal, Market,
+    },
+};
+
+/// Addresses of a GLV.
+#[derive(Clone, Copy, Debug, PartialEq, Eq)]
+pub struct GlvInfo {
+    pub index: u16,
+    pub glv_token: Pubkey,
+    pub glv: Pubkey,
+}
+
+/// ATA for a Token-2022 mint (the GLV token).
+pub fn ata22(owner: &Pubkey, mint: &Pubkey) -> Pubkey {
+    associated_token::get_associated_token_address_with_program_id(owner, mint, &spl_token_2022::ID)
+}
+
+fn harness_err(msg: &str) -> (TxError, TxMeta) {
+    (TxError::Runtime(format!("harness: {msg}")), TxMeta::default())
+}
+
+/// The first event of type `E` in the transaction meta (Anchor discriminator + borsh).
+pub fn find_event<E: anchor_lang::Discriminator + anchor_lang::AnchorDeserialize>(meta: &TxMeta) -> Option<E> {
+    find_events::<E>(meta).into_iter().next()
+}
+
+pub fn find_events<E: anchor_lang::Discriminator + anchor_lang::AnchorDeserialize>(meta: &TxMeta) -> Vec<E> {
+    let d = E::DISCRIMINATOR;
+    meta.events
+        .iter()
+        .filter(|(pid, data)| *pid == STORE_PID && data.len() >= d.len() && data[..d.len()] == *d)
+        .filter_map(|(_, data)| E::deserialize(&mut &data[d.len()..]).ok())
+        .collect()
+}
+
+impl World {
+    pub fn glv_info(&self, index: u16) -> GlvInfo {
+        let glv_token = pda::find_glv_token_address(&self.store, index, &STORE_PID).0;
+        let glv = pda::find_glv_address(&glv_token, &STORE_PID).0;
+        GlvInfo { index, glv_token, glv }
+    }
+
+    pub fn load_glv(&self, glv: &Pubkey) -> Option<Glv> {
+        load::<Glv>(&self.svm, glv)
+    }
+
+    /// Market tokens of the GLV in the order of the account's (sorted) map — the order the program
+    /// expects for the `markets` / `market_tokens` remaining accounts.
+    pub fn glv_market_tokens(&self, glv: &Pubkey) -> Vec<Pubkey> {
+        self.load_glv(glv).map(|g| g.market_tokens().collect()).unwrap_or_default()
+    }
+
+    pub fn market_of_token(&self, market_token: &Pubkey) -> Pubkey {
+        pda::find_market_address(&self.store, market_token, &STORE_PID).0
+    }
+
+    pub fn glv_vault(&self, glv: &Pubkey, market_token: &Pubkey) -> Pubkey {
+        token::ata(glv, market_token)
+    }
+
+    pub fn prepare_ata22_ix(&self, payer: Pubkey, owner: Pubkey, mint: Pubkey) -> Instruction {
+        six(
+            sa::PrepareAssociatedTokenAccount {
+                payer,
+                owner,
+                mint,
+                account: ata22(&owner, &mint),
+                system_program: system_program::ID,
+                token_program: spl_token_2022::ID,
+                associated_token_program: associated_token::ID,
+            },
+            si::PrepareAssociatedTokenAccount {},
+        )
+    }
+
+    /// `[markets (readonly)] ++ [market tokens (readonly)]` for the given market tokens.
+    fn glv_split_metas(&self, market_tokens: &[Pubkey]) -> Vec<AccountMeta> {
+        let mut v: Vec<AccountMeta> = market_tokens
+            .iter()
+            .map(|t| AccountMeta::new_readonly(self.market_of_token(t), false))
+            .collect();
+        v.extend(market_tokens.iter().map(|t| AccountMeta::new_readonly(*t, false)));
+        v
+    }
+
+    /// `initialize_glv` with the given market tokens, passed in the given order (the program requires
+    /// them sorted by address).
+    pub fn initialize_glv_ix(&self, authority: Pubkey, index: u16, market_tokens: &[Pubkey]) -> Instruction {
+        let info = self.glv_info(index);
+        let mut ix = six(
+            sa::InitializeGlv {
+                authority,
+                store: self.store,
+                glv_token: info.glv_token,
+                glv: info.glv,
+                system_program: system_program::ID,
+                token_program: spl_token_2022::ID,
+                market_token_program: spl_token::ID,
+                associated_token_program: associated_token::ID,
+            },
+            si::InitializeGlv { index, length: market_tokens.len() as u16 },
+        );
+        ix.accounts.extend(self.glv_split_metas(market_tokens));
+        ix.accounts
+            .extend(market_tokens.iter().map(|t| AccountMeta::new(self.glv_vault(&info.glv, t), false)));
+        ix
+    }
+
+    pub fn initialize_glv(&mut self, index: u16, markets: &[usize]) -> std::result::Result<GlvInfo, (TxError, TxMeta)> {
+        let mut tokens: Vec<Pubkey> = markets.iter().map(|m| self.markets[*m].market_token).collect();
+        tokens.sort();
+        tokens.dedup();
+        let keeper = self.keeper;
+        let ix = self.initialize_glv_ix(keeper, index, &tokens);
+        self.send(&[ix], &[keeper]).map(|_| self.glv_info(index))
+    }
+
+    pub fn insert_glv_market_ix(&self, authority: Pubkey, glv: &GlvInfo, market_token: Pubkey) -> Instruction {
+        six(
+            sa::InsertGlvMarket {
+                authority,
+                store: self.store,
+                glv: glv.glv,
+                market_token,
+                market: self.market_of_token(&market_token),
+                vault: self.glv_vault(&glv.glv, &market_token),
+                system_program: system_program::ID,
+                token_program: spl_token::ID,
+                associated_token_program: associated_token::ID,
+            },
+            si::InsertGlvMarket {},
+        )
+    }
+
+    pub fn insert_glv_market(&mut self, glv: &GlvInfo, market: usize) -> TxResult {
+        let keeper = self.keeper;
+        let ix = self.insert_glv_market_ix(keeper, glv, self.markets[market].market_token);
+        self.send(&[ix], &[keeper])
+    }
+
+    pub fn remove_glv_market_ix(&self, authority: Pubkey, glv: &GlvInfo, market_token: Pubkey) -> Instruction {
+        let store_wallet = self.store_wallet();
+        six(
+            sa::RemoveGlvMarket {
+                authority,
+                store: self.store,
+                store_wallet,
+                glv: glv.glv,
+                market_token,
+                vault: self.glv_vault(&glv.glv, &market_token),
+                store_wallet_ata: token::ata(&store_wallet, &market_token),
+                token_program: spl_token::ID,
+                associated_token_program: associated_token::ID,
+                system_program: system_program::ID,
+            },
+            si::RemoveGlvMarket {},
+        )
+    }
+
+    pub fn remove_glv_market(&mut self, glv: &GlvInfo, market: usize) -> TxResult {
+        let keeper = self.keeper;
+        let ix = self.remove_glv_market_ix(keeper, glv, self.markets[market].market_token);
+        self.send(&[ix], &[keeper])
+    }
+
+    pub fn update_glv_market_config(&mut self, glv: &GlvInfo, market_token: Pubkey, max_amount: Option<u64>, max_value: Option<u128>) -> TxResult {
+        let keeper = self.keeper;
+        let ix = six(
+            sa::UpdateGlvMarketConfig { authority: keeper, store: self.store, glv: glv.glv, market_token },
+            si::UpdateGlvMarketConfig { max_amount, max_value },
+        );
+        self.send(&[ix], &[keeper])
+    }
+
+    pub fn toggle_glv_market_flag(&mut self, glv: &GlvInfo, market_token: Pubkey, flag: GlvMarketFlag, enable: bool) -> TxResult {
+        let keeper = self.keeper;
+        let ix = six(
+            sa::UpdateGlvMarketConfig { authority: keeper, store: self.store, glv: glv.glv, market_token },
+            si::ToggleGlvMarketFlag { flag: flag.to_string(), enable },
+        );
+        self.send(&[ix], &[keeper])
+    }
+
+    pub fn update_glv_config(&mut self, glv: &GlvInfo, params: UpdateGlvParams) -> TxResult {
+        let keeper = self.keeper;
+        let ix = six(
+            sa::UpdateGlvConfig { authority: keeper, store: self.store, glv: glv.glv },
+            si::UpdateGlvConfig { params },
+        );
+        self.send(&[ix], &[keeper])
+    }
+
+    /// `update_market_config(key, value)` by the keeper (MARKET_KEEPER).
+    pub fn update_market_config(&mut self, market: usize, key: &str, value: u128) -> TxResult {
+        let keeper = self.keeper;
+        let ix = six(
+            sa::UpdateMarketConfig { authority: keeper, store: self.store, market: self.markets[market].market },
+            si::UpdateMarketConfig { key: key.to_string(), value },
+        );
+        self.send(&[ix], &[keeper])
+    }
+
+    // --------------------------------------------------------------------------------------------
+    // GLV deposit
+
+    /// `create_glv_deposit` (+ ATA preparation); returns the GLV-deposit address. The long / short pay-in
+    /// tokens are the market's own (no swap paths).
+    pub fn create_glv_deposit(
+        &mut self,
+        owner: Pubkey,
+        glv: &GlvInfo,
+        market: usize,
+        market_token_amount: u64,
+        long_amount: u64,
+        short_amount: u64,
+        min_market_token_amount: u64,
+        min_glv_token_amount: u64,
+    ) -> std::result::Result<Pubkey, (TxError, TxMeta)> {
+        let m = self.markets[market].clone();
+        let store = self.store;
+        let nonce = self.next_nonce();
+        let glv_deposit = pda::find_glv_deposit_address(&store, &owner, &nonce, &STORE_PID).0;
+        let long_token = (long_amount != 0).then(|| self.tokens[m.long].mint);
+        let short_token = (short_amount != 0).then(|| self.tokens[m.short].mint);
+        let mut ixs = vec![
+            self.prepare_ata22_ix(owner, owner, glv.glv_token),
+            self.prepare_ata22_ix(owner, glv_deposit, glv.glv_token),
+            self.prepare_ata_ix(owner, glv_deposit, m.market_token),
+        ];
+        for t in long_token.iter().chain(short_token.iter()) {
+            ixs.push(self.prepare_ata_ix(owner, glv_deposit, *t));
+        }
+        let create = six(
+            sa::CreateGlvDeposit {
+                owner,
+                receiver: owner,
+                store,
+                market: m.market,
+                glv: glv.glv,
+                glv_deposit,
+                glv_token: glv.glv_token,
+                market_token: m.market_token,
+                initial_long_token: long_token,
+                initial_short_token: short_token,
+                market_token_source: (market_token_amount != 0).then(|| token::ata(&owner, &m.market_token)),
+                initial_long_token_source: long_token.map(|t| token::ata(&owner, &t)),
+                initial_short_token_source: short_token.map(|t| token::ata(&owner, &t)),
+                glv_token_escrow: ata22(&glv_deposit, &glv.glv_token),
+                market_token_escrow: token::ata(&glv_deposit, &m.market_token),
+                initial_long_token_escrow: long_token.map(|t| token::ata(&glv_deposit, &t)),
+                initial_short_token_escrow: short_token.map(|t| token::ata(&glv_deposit, &t)),
+                system_program: system_program::ID,
+                token_program: spl_token::ID,
+                glv_token_program: spl_token_2022::ID,
+                associated_token_program: associated_token::ID,
+            },
+            si::CreateGlvDeposit {
+                nonce,
+                params: CreateGlvDepositParams {
+                    execution_lamports: EXECUTION_FEE,
+                    long_token_swap_length: 0,
+                    short_token_swap_length: 0,
+                    initial_long_token_amount: long_amount,
+                    initial_short_token_amount: short_amount,
+                    market_token_amount,
+                    min_market_token_amount,
+                    min_glv_token_amount,
+                    should_unwrap_native_token: false,
+                },
+            },
+        );
+        ixs.push(create);
+        self.send(&ixs, &[owner]).map(|_| glv_deposit)
+    }
+
+    /// Feed accounts for a GLV action: swap tokens of the action + index tokens of all GLV markets,
+    /// sorted (all tokens use the same provider, so provider-sorting is the identity).
+    fn glv_feed_metas(&self, glv: &Glv, action: Option<&impl gmsol_utils::swap::HasSwapParams>) -> Option<Vec<AccountMeta>> {
+        let mut collector = glv.tokens_collector(action);
+        for mt in glv.market_tokens() {
+            let market: Market = load(&self.svm, &self.market_of_token(&mt))?;
+            collector.insert_token(&market.meta().index_token_mint);
+        }
+        let tokens: Vec<Pubkey> = collector.unique_tokens().into_iter().collect();
+        Some(self.feed_metas(&tokens))
+    }
+
+    pub fn execute_glv_deposit_ix(&self, executor: Pubkey, glv_deposit: Pubkey, throw_on_execution_error: bool) -> Option<Instruction> {
+        let d: GlvDeposit = load(&self.svm, &glv_deposit)?;
+        let t = d.tokens();
+        let glv_token = t.glv_token();
+        let glv_addr = pda::find_glv_address(&glv_token, &STORE_PID).0;
+        let glv = self.load_glv(&glv_addr)?;
+        let market_token = t.market_token();
+        let lt = t.initial_long_token.token();
+        let st = t.initial_short_token.token();
+        let mut ix = six(
+            sa::ExecuteGlvDeposit {
+                authority: executor,
+                store: self.store,
+                token_map: self.token_map,
+                oracle: self.oracle,
+                glv: glv_addr,
+                market: self.market_of_token(&market_token),
+                glv_deposit,
+                glv_token,
+                market_token,
+                initial_long_token: lt,
+                initial_short_token: st,
+                glv_token_escrow: t.glv_token_account(),
+                market_token_escrow: t.market_token_account(),
+                initial_long_token_escrow: t.initial_long_token.account(),
+                initial_short_token_escrow: t.initial_short_token.account(),
+                initial_long_token_vault: lt.map(|x| self.vault(&x)),
+                initial_short_token_vault: st.map(|x| self.vault(&x)),
+                market_token_vault: self.glv_vault(&glv_addr, &market_token),
+                token_program: spl_token::ID,
+                glv_token_program: spl_token_2022::ID,
+                system_program: system_program::ID,
+                chainlink_program: None,
+                event_authority: self.event_authority(),
+                program: STORE_PID,
+            },
+            si::ExecuteGlvDeposit { execution_lamports: EXECUTION_FEE, throw_on_execution_error },
+        );
+        let mts: Vec<Pubkey> = glv.market_tokens().collect();
+        ix.accounts.extend(self.glv_split_metas(&mts));
+        ix.accounts.extend(self.glv_feed_metas(&glv, Some(&d))?);
+        Some(ix)
+    }
+
+    pub fn execute_glv_deposit(&mut self, glv_deposit: Pubkey, throw_on_execution_error: bool) -> TxResult {
+        let keeper = self.keeper;
+        let Some(ix) = self.execute_glv_deposit_ix(keeper, glv_deposit, throw_on_execution_error) else {
+            return Err(harness_err("glv deposit not found"));
+        };
+        self.send(&[ix], &[keeper])
+    }
+
+    pub fn glv_deposit_state(&self, glv_deposit: &Pubkey) -> Option<ActionState> {
+        let d: GlvDeposit = load(&self.svm, glv_deposit)?;
+        d.header().action_state().ok()
+    }
+
+    pub fn close_glv_deposit_ix(&self, executor: Pubkey, glv_deposit: Pubkey) -> Option<Instruction> {
+        let d: GlvDeposit = load(&self.svm, &glv_deposit)?;
+        let owner = *d.header().owner();
+        let receiver = d.header().receiver();
+        let t = d.tokens();
+        let glv_token = t.glv_token();
+        let market_token = t.market_token();
+        let lt = t.initial_long_token.token();
+        let st = t.initial_short_token.token();
+        Some(six(
+            sa::CloseGlvDeposit {
+                executor,
+                store: self.store,
+                store_wallet: self.store_wallet(),
+                owner,
+                receiver,
+                glv_deposit,
+                market_token,
+                initial_long_token: lt,
+                initial_short_token: st,
+                glv_token,
+                market_token_escrow: t.market_token_account(),
+                initial_long_token_escrow: t.initial_long_token.account(),
+                initial_short_token_escrow: t.initial_short_token.account(),
+                glv_token_escrow: t.glv_token_account(),
+                market_token_ata: token::ata(&owner, &market_token),
+                initial_long_token_ata: lt.map(|x| token::ata(&owner, &x)),
+                initial_short_token_ata: st.map(|x| token::ata(&owner, &x)),
+                glv_token_ata: ata22(&receiver, &glv_token),
+                system_program: system_program::ID,
+                token_program: spl_token::ID,
+                glv_token_program: spl_token_2022::ID,
+                associated_token_program: associated_token::ID,
+                event_authority: self.event_authority(),
+                program: STORE_PID,
+            },
+            si::CloseGlvDeposit { reason: "test".into() },
+        ))
+    }
+
+    pub fn close_glv_deposit(&mut self, executor: Pubkey, glv_deposit: Pubkey) -> TxResult {
+        let Some(ix) = self.close_glv_deposit_ix(executor, glv_deposit) else {
+            return Err(harness_err("glv deposit not found"));
+        };
+        self.send(&[ix], &[executor])
+    }
+
+    // --------------------------------------------------------------------------------------------
+    // GLV withdrawal
+
+    pub fn create_glv_withdrawal(
+        &mut self,
+        owner: Pubkey,
+        glv: &GlvInfo,
+        market: usize,
+        glv_token_amount: u64,
+        min_long: u64,
+        min_short: u64,
+    ) -> std::result::Result<Pubkey, (TxError, TxMeta)> {
+        let m = self.markets[market].clone();
+        let store = self.store;
+        let nonce = self.next_nonce();
+        let glv_withdrawal = pda::find_glv_withdrawal_address(&store, &owner, &nonce, &STORE_PID).0;
+        let lt = self.tokens[m.long].mint;
+        let st = self.tokens[m.short].mint;
+        let mut ixs = vec![
+            self.prepare_ata_ix(owner, owner, lt),
+            self.prepare_ata_ix(owner, owner, st),
+            self.prepare_ata22_ix(owner, glv_withdrawal, glv.glv_token),
+            self.prepare_ata_ix(owner, glv_withdrawal, m.market_token),
+            self.prepare_ata_ix(owner, glv_withdrawal, lt),
+        ];
+        if st != lt {
+            ixs.push(self.prepare_ata_ix(owner, glv_withdrawal, st));
+        }
+        ixs.push(six(
+            sa::CreateGlvWithdrawal {
+                owner,
+                receiver: owner,
+                store,
+                market: m.market,
+                glv: glv.glv,
+                glv_withdrawal,
+                glv_token: glv.glv_token,
+                market_token: m.market_token,
+                final_long_token: lt,
+                final_short_token: st,
+                glv_token_source: ata22(&owner, &glv.glv_token),
+                glv_token_escrow: ata22(&glv_withdrawal, &glv.glv_token),
+                market_token_escrow: token::ata(&glv_withdrawal, &m.market_token),
+                final_long_token_escrow: token::ata(&glv_withdrawal, &lt),
+                final_short_token_escrow: token::ata(&glv_withdrawal, &st),
+                system_program: system_program::ID,
+                token_program: spl_token::ID,
+                glv_token_program: spl_token_2022::ID,
+                associated_token_program: associated_token::ID,
+            },
+            si::CreateGlvWithdrawal {
+                nonce,
+                params: CreateGlvWithdrawalParams {
+                    execution_lamports: EXECUTION_FEE,
+                    long_token_swap_length: 0,
+                    short_token_swap_length: 0,
+                    glv_token_amount,
+                    min_final_long_token_amount: min_long,
+                    min_final_short_token_amount: min_short,
+                    should_unwrap_native_token: false,
+                },
+            },
+        ));
+        self.send(&ixs, &[owner]).map(|_| glv_withdrawal)
+    }
+
+    pub fn execute_glv_withdrawal_ix(&self, executor: Pubkey, glv_withdrawal: Pubkey, throw_on_execution_error: bool) -> Option<Instruction> {
+        let w: GlvWithdrawal = load(&self.svm, &glv_withdrawal)?;
+        let t = w.tokens();
+        let glv_token = t.glv_token();
+        let glv_addr = pda::find_glv_address(&glv_token, &STORE_PID).0;
+        let glv = self.load_glv(&glv_addr)?;
+        let market_token = t.market_token();
+        let lt = t.final_long_token();
+        let st = t.final_short_token();
+        let mut ix = six(
+            sa::ExecuteGlvWithdrawal {
+                authority: executor,
+                store: self.store,
+                token_map: self.token_map,
+                oracle: self.oracle,
+                glv: glv_addr,
+                market: self.market_of_token(&market_token),
+                glv_withdrawal,
+                glv_token,
+                market_token,
+                final_long_token: lt,
+                final_short_token: st,
+                glv_token_escrow: t.glv_token_account(),
+                market_token_escrow: t.market_token_account(),
+                final_long_token_escrow: t.final_long_token_account(),
+                final_short_token_escrow: t.final_short_token_account(),
+                market_token_withdrawal_vault: self.vault(&market_token),
+                final_long_token_vault: self.vault(&lt),
+                final_short_token_vault: self.vault(&st),
+                market_token_vault: self.glv_vault(&glv_addr, &market_token),
+                token_program: spl_token::ID,
+                glv_token_program: spl_token_2022::ID,
+                system_program: system_program::ID,
+                chainlink_program: None,
+                event_authority: self.event_authority(),
+                program: STORE_PID,
+            },
+            si::ExecuteGlvWithdrawal { execution_lamports: EXECUTION_FEE, throw_on_execution_error },
+        );
+        let mts: Vec<Pubkey> = glv.market_tokens().collect();
+        ix.accounts.extend(self.glv_split_metas(&mts));
+        ix.accounts.extend(self.glv_feed_metas(&glv, Some(&w))?);
+        Some(ix)
+    }
+
+    pub fn execute_glv_withdrawal(&mut self, glv_withdrawal: Pubkey, throw_on_execution_error: bool) -> TxResult {
+        let keeper = self.keeper;
+        let Some(ix) = self.execute_glv_withdrawal_ix(keeper, glv_withdrawal, throw_on_execution_error) else {
+            return Err(harness_err("glv withdrawal not found"));
+        };
+        self.send(&[ix], &[keeper])
+    }
+
+    pub fn glv_withdrawal_state(&self, glv_withdrawal: &Pubkey) -> Option<ActionState> {
+        let w: GlvWithdrawal = load(&self.svm, glv_withdrawal)?;
+        w.header().action_state().ok()
+    }
+
+    pub fn close_glv_withdrawal_ix(&self, executor: Pubkey, glv_withdrawal: Pubkey) -> Option<Instruction> {
+        let w: GlvWithdrawal = load(&self.svm, &glv_withdrawal)?;
+        let owner = *w.header().owner();
+        let receiver = w.header().receiver();
+        let t = w.tokens();
+        let glv_token = t.glv_token();
+        let market_token = t.market_token();
+        let lt = t.final_long_token();
+        let st = t.final_short_token();
+        Some(six(
+            sa::CloseGlvWithdrawal {
+                executor,
+                store: self.store,
+                store_wallet: self.store_wallet(),
+                owner,
+                receiver,
+                glv_withdrawal,
+                market_token,
+                final_long_token: lt,
+                final_short_token: st,
+                glv_token,
+                market_token_escrow: t.market_token_account(),
+                final_long_token_escrow: t.final_long_token_account(),
+                final_short_token_escrow: t.final_short_token_account(),
+                market_token_ata: token::ata(&owner, &market_token),
+                final_long_token_ata: token::ata(&receiver, &lt),
+                final_short_token_ata: token::ata(&receiver, &st),
+                glv_token_escrow: t.glv_token_account(),
+                glv_token_ata: ata22(&owner, &glv_token),
+                system_program: system_program::ID,
+                token_program: spl_token::ID,
+                glv_token_program: spl_token_2022::ID,
+                associated_token_program: associated_token::ID,
+                event_authority: self.event_authority(),
+                program: STORE_PID,
+            },
+            si::CloseGlvWithdrawal { reason: "test".into() },
+        ))
+    }
+
+    pub fn close_glv_withdrawal(&mut self, executor: Pubkey, glv_withdrawal: Pubkey) -> TxResult {
+        let Some(ix) = self.close_glv_withdrawal_ix(executor, glv_withdrawal) else {
+            return Err(harness_err("glv withdrawal not found"));
+        };
+        self.send(&[ix], &[executor])
+    }
+
+    // --------------------------------------------------------------------------------------------
+    // GLV shift (keeper only)
+
+    pub fn create_glv_shift(
+        &mut self,
+        glv: &GlvInfo,
+        from_market: usize,
+        to_market: usize,
+        from_market_token_amount: u64,
+        min_to_market_token_amount: u64,
+    ) -> std::result::Result<Pubkey, (TxError, TxMeta)> {
+        let keeper = self.keeper;
+        let store = self.store;
+        let nonce = self.next_nonce();
+        let glv_shift = pda::find_shift_address(&store, &keeper, &nonce, &STORE_PID).0;
+        let (from, to) = (self.markets[from_market].clone(), self.markets[to_market].clone());
+        let ix = six(
+            sa::CreateGlvShift {
+                authority: keeper,
+                store,
+                glv: glv.glv,
+                from_market: from.market,
+                to_market: to.market,
+                glv_shift,
+                from_market_token: from.market_token,
+                to_market_token: to.market_token,
+                from_market_token_vault: self.glv_vault(&glv.glv, &from.market_token),
+                to_market_token_vault: self.glv_vault(&glv.glv, &to.market_token),
+                system_program: system_program::ID,
+                token_program: spl_token::ID,
+                associated_token_program: associated_token::ID,
+            },
+            si::CreateGlvShift {
+                nonce,
+                params: CreateShiftParams {
+                    execution_lamports: EXECUTION_FEE,
+                    from_market_token_amount,
+                    min_to_market_token_amount,
+                },
+            },
+        );
+        self.send(&[ix], &[keeper]).map(|_| glv_shift)
+    }
+
+    pub fn execute_glv_shift_ix(&self, executor: Pubkey, glv_shift: Pubkey, throw_on_execution_error: bool) -> Option<Instruction> {
+        let s: GlvShift = load(&self.svm, &glv_shift)?;
+        let glv = *s.glv();
+        let t = s.tokens();
+        let (from_mt, to_mt) = (t.from_market_token(), t.to_market_token());
+        let from: Market = load(&self.svm, &self.market_of_token(&from_mt))?;
+        let to: Market = load(&self.svm, &self.market_of_token(&to_mt))?;
+        let tokens: Vec<Pubkey> = gmsol_utils::market::ordered_tokens(&from, &to).into_iter().collect();
+        let mut ix = six(
+            sa::ExecuteGlvShift {
+                authority: executor,
+                store: self.store,
+                token_map: self.token_map,
+                oracle: self.oracle,
+                glv,
+                from_market: self.market_of_token(&from_mt),
+                to_market: self.market_of_token(&to_mt),
+                glv_shift,
+                from_market_token: from_mt,
+                to_market_token: to_mt,
+                from_market_token_glv_vault: self.glv_vault(&glv, &from_mt),
+                to_market_token_glv_vault: self.glv_vault(&glv, &to_mt),
+                from_market_token_vault: self.vault(&from_mt),
+                token_program: spl_token::ID,
+                chainlink_program: None,
+                event_authority: self.event_authority(),
+                program: STORE_PID,
+            },
+            si::ExecuteGlvShift { execution_lamports: EXECUTION_FEE, throw_on_execution_error },
+        );
+        ix.accounts.extend(self.feed_metas(&tokens));
+        Some(ix)
+    }
+
+    pub fn execute_glv_shift(&mut self, glv_shift: Pubkey, throw_on_execution_error: bool) -> TxResult {
+        let keeper = self.keeper;
+        let Some(ix) = self.execute_glv_shift_ix(keeper, glv_shift, throw_on_execution_error) else {
+            return Err(harness_err("glv shift not found"));
+        };
+        self.send(&[ix], &[keeper])
+    }
+
+    pub fn glv_shift_state(&self, glv_shift: &Pubkey) -> Option<ActionState> {
+        let s: GlvShift = load(&self.svm, glv_shift)?;
+        s.header().action_state().ok()
+    }
+
+    pub fn close_glv_shift(&mut self, glv_shift: Pubkey) -> TxResult {
+        let keeper = self.keeper;
+        let Some(s) = load::<GlvShift>(&self.svm, &glv_shift) else {
+            return Err(harness_err("glv shift not found"));
+        };
+        let t = s.tokens();
+        let ix = six(
+            sa::CloseGlvShift {
+                authority: keeper,
+                funder: *s.funder(),
+                store: self.store,
+                store_wallet: self.store_wallet(),
+                glv: *s.glv(),
+                glv_shift,
+                from_market_token: t.from_market_token(),
+                to_market_token: t.to_market_token(),
+                system_program: system_program::ID,
+                token_program: spl_token::ID,
+                associated_token_program: associated_token::ID,
+                event_authority: self.event_authority(),
+                program: STORE_PID,
+            },
+            si::CloseGlvShift { reason: "test".into() },
+        );
+        self.send(&[ix], &[keeper])
+    }
+
+    // --------------------------------------------------------------------------------------------
+    // Read-only views (simulated, never committed)
+
+    /// `get_glv_token_value` through the real instruction (simulation): returns the emitted event.
+    pub fn view_glv_token_value(&mut self, glv: &GlvInfo, amount: u64, maximize: bool) -> std::result::Result<gmsol_store::events::GlvTokenValue, (TxError, TxMeta)> {
+        let keeper = self.keeper;
+        let Some(g) = self.load_glv(&glv.glv) else {
+            return Err(harness_err("glv not found"));
+        };
+        let mut ix = six(
+            sa::GetGlvTokenValue {
+                authority: keeper,
+                store: self.store,
+                token_map: self.token_map,
+                oracle: self.oracle,
+                glv: glv.glv,
+                glv_token: glv.glv_token,
+                event_authority: self.event_authority(),
+                program: STORE_PID,
+            },
+            si::GetGlvTokenValue { amount, maximize, max_age: 3600, emit_event: true },
+        );
+        let mts: Vec<Pubkey> = g.market_tokens().collect();
+        ix.accounts.extend(self.glv_split_metas(&mts));
+        let Some(feeds) = self.glv_feed_metas(&g, None::<&GlvDeposit>) else {
+            return Err(harness_err("market of glv not found"));
+        };
+        ix.accounts.extend(feeds);
+        let meta = self.svm.simulate(&[ix], &[keeper])?;
+        match find_event::<gmsol_store::events::GlvTokenValue>(&meta) {
+            Some(e) => Ok(e),
+            None => Err((TxError::Runtime("harness: GlvTokenValue event missing".into()), meta)),
+        }
+    }
+
+    /// `get_market_token_value` through the real instruction (simulation): returns the emitted event
+    /// (pool value for the given PnL factor / maximize flag, supply, value of `amount`).
+    pub fn view_market_token_value(
+        &mut self,
+        market_token: Pubkey,
+        amount: u64,
+        pnl_factor: &str,
+        maximize: bool,
+    ) -> std::result::Result<gmsol_store::events::MarketTokenValue, (TxError, TxMeta)> {
+        let keeper = self.keeper;
+        let market_addr = self.market_of_token(&market_token);
+        let Some(market) = load::<Market>(&self.svm, &market_addr) else {
+            return Err(harness_err("market not found"));
+        };
+        let tokens: Vec<Pubkey> = market.meta().ordered_tokens().into_iter().collect();
+        let mut ix = six(
+            sa::GetMarketTokenValue {
+                authority: keeper,
+                store: self.store,
+                token_map: self.token_map,
+                oracle: self.oracle,
+                market: market_addr,
+                market_token,
+                event_authority: self.event_authority(),
+                program: STORE_PID,
+            },
+            si::GetMarketTokenValue { amount, pnl_factor: pnl_factor.to_string(), maximize, max_age: 3600, emit_event: true },
+        );
+        ix.accounts.extend(self.feed_metas(&tokens));
+        let meta = self.svm.simulate(&[ix], &[keeper])?;
+        match find_event::<gmsol_store::events::MarketTokenValue>(&meta) {
+            Some(e) => Ok(e),
+            None => Err((TxError::Runtime("harness: MarketTokenValue event missing".into()), meta)),
+        }
+    }
+}
